@@ -368,7 +368,7 @@ def cases(draw):
         elif k == 8:
             ops.append(["basic"])
         else:
-            ops.append(["weighted", draw(st.sampled_from([100, 100, 30, 10]))])
+            ops.append(["weighted", draw(st.sampled_from([100, 30, 10, 10]))])
     times = [draw(st.sampled_from([1e-4, 1e-3, 1e-3, 1e-2, 0.1, 1.0, 10.0]))
              for _ in range(draw(st.integers(3, 24)))]
     return {"mode2D": mode2D, "groups": groups, "reqs": reqs, "param": have_param, "workspace": ws,
